@@ -89,6 +89,7 @@ def r2_replay(run, shapes):
     from osaca.semantics import ArchSemantics
 
     cases = []
+    nocost_errs = collections.Counter()
     try:
         mm, sem, parser = synth.load(path)
     except Exception as ex:
@@ -113,8 +114,15 @@ def r2_replay(run, shapes):
                 if row != c["rows"][0]:
                     c["rows"][0] = row  # what the analysis path assigned differs from the direct cost
         except Exception as ex:
-            c["err"] = "%s @%s" % (pc.exc_text(ex), pc.exc_where(ex))
+            if s["cost"]:
+                c["err"] = "%s @%s" % (pc.exc_text(ex), pc.exc_where(ex))
+            else:
+                # an entry that lacks port pressure is allowed by the statement (--db-check counts
+                # them) but no shipped entry does: what the code does with it is recorded only
+                nocost_errs["%s @%s" % (pc.exc_text(ex), pc.exc_where(ex))] += 1
         cases.append(c)
+    if nocost_errs:
+        run.note("r2_entries_without_port_pressure_raise", dict(nocost_errs))
     rejects, r = tlc.batch_validate("Trace_ModelData", "Trace_ModelData", cases, tag="c15-r2")
     run.add_mc(r, "Trace_ModelData(R2 shapes)")
     run.add_traces(len(cases))
@@ -304,7 +312,8 @@ def r3_shipped(run, tier):
             run.add_eval(1)
             if "err" in rec:
                 nm = rec["name"]
-                run.fail("C15:analysis-exception:%s:%s:%s" % (res["arch"], rec["err"].split("@")[-1], rec["err"].split(":")[0]),
+                run.fail("C15:analysis-exception:%s:%s:%s:%s:%s" % (
+                    res["arch"], nm, pc.sha(rec["sig"].split("|")[1:]), rec["err"].split("@")[-1], rec["err"].split(":")[0]),
                          "%s: analysing an instruction bound to entry %s raises %s (stage %s)" % (
                              res["arch"], rec["sig"][:120], rec["err"], rec.get("stage", "lookup")),
                          {"arch": res["arch"], "entry": rec["sig"], "error": rec["err"]})
@@ -317,6 +326,14 @@ def r3_shipped(run, tier):
             c["obs"] = {"tp": found["throughput"][0], "lat": found["latency"][0], "pp": found["port"][0],
                         "total": found["throughput"][1]}
         cases.append(c)
+    # self-test of the binding: a corrupted cost must be rejected
+    probe = next((c for c in cases if c.get("kind") == "form" and c.get("rows") and "err" not in c
+                  and any(c["rows"][0])), None)
+    if probe is not None:
+        bad = json.loads(json.dumps(probe))
+        bad["id"] = "selftest|" + probe["id"]
+        bad["rows"][0][next(i for i, v in enumerate(bad["rows"][0]) if v)] += 1
+        cases.append(bad)
     # TLC: several JVMs in parallel over chunks
     chunks = [cases[i::6] for i in range(6)]
     with multiprocessing.pool.ThreadPool(6) as tp:
@@ -326,6 +343,13 @@ def r3_shipped(run, tier):
     for k, (rej, r) in enumerate(outs):
         run.add_mc(r, "Trace_ModelData(chunk %d)" % k)
         rejects += rej
+    if probe is not None:
+        hit = [r for r in rejects if r[0].startswith("selftest|")]
+        if not hit or hit[0][1] != "cost-mismatch":
+            raise tlc.TLCError("self-test: corrupted cost of %s was not rejected (%r)" % (probe["id"], hit))
+        rejects = [r for r in rejects if not r[0].startswith("selftest|")]
+        cases = [c for c in cases if not str(c["id"]).startswith("selftest|")]
+        run.note("selftest_corrupted_cost_rejected", True)
     run.add_traces(len(cases))
     run.note("entries_exported", sum(1 for c in cases if c.get("kind") in ("form", "isa", "table")))
     run.note("entries_costed_by_average_port_pressure", n_costed)
